@@ -395,7 +395,9 @@ def run(ctx: core.Ctx) -> None:
                     bjobs.append((name, (), (), ext, mirror))
                     for o in (19, len(ps[0]) + 1):
                         bjobs.append((name, (o,), (0,), ext, mirror))
-        for (viols, outcome), job in zip(pool.imap(session_worker, bjobs, chunksize=8), bjobs):
+        bres = pool.map(session_worker, bjobs, chunksize=8)
+        core.replay_check(ctx, pool, session_worker, bjobs, bres, stride=64)
+        for (viols, outcome), job in zip(bres, bjobs):
             ctx.count('executions')
             ctx.count('transitions', len(job[1]) + 1)
             ctx.add_to_set('session_outcomes', outcome)
